@@ -20,6 +20,7 @@ mod corpus;
 mod feed;
 mod c14;
 mod c15;
+mod c16;
 mod c20;
 mod sched;
 mod dec;
@@ -85,6 +86,7 @@ fn main() {
         "C13" => c13::main(&args),
         "C14" => c14::main(&args),
         "C15" => c15::main(&args),
+        "C16" => c16::main(&args),
         "C20" => c20::main(&args),
         "bringup" => bringup::main(&args),
         _ => {
